@@ -496,3 +496,11 @@ Theorem c11_code_try_read_100_chain : forall f input,
   end.
 Proof. exact gen_try_read_100_chain. Qed.
 Print Assumptions c11_code_try_read_100_chain.
+
+(* ================================================================== the Expect test itself (translated from the source) *)
+(** [HeaderIterExt::has_expect_100] -- the flag [has_expect] that [c11_code_new_flags] takes as a value -- is translated from src/ext.rs
+    and is the model's test: some Expect field with the value 100-continue (proofs/Gen2_equiv_has.v). *)
+From Hoot.proofs Require Import Gen2_equiv_has.
+Theorem c11_code_has_expect_100 : forall l, gen_has_expect_100 l = headers_has l (s2b "expect") (s2b "100-continue").
+Proof. exact gen_has_expect_100_eq. Qed.
+Print Assumptions c11_code_has_expect_100.
